@@ -111,7 +111,9 @@ func zs(s string) string {
 	return s
 }
 
-func addr(i int64) sdk.AccAddress { return sdk.AccAddress(fmt.Sprintf("actor%02d_____________", i)[:20]) }
+func addr(i int64) sdk.AccAddress {
+	return sdk.AccAddress(fmt.Sprintf("actor%02d_____________", i)[:20])
+}
 
 func npValue(pid int64, v string) govtypes.NetworkPropertyValue {
 	if pid == 2 {
@@ -146,21 +148,21 @@ func (c content) real() govtypes.Content {
 }
 
 type op struct {
-	Kind    string   `json:"op"` // submit | vote | end | ext
-	T       int64    `json:"time"`
-	H       int64    `json:"height"`
-	Who     int64    `json:"who,omitempty"`
-	Content *content `json:"content,omitempty"`
-	ID      int64    `json:"id,omitempty"`
-	Opt     int64    `json:"option,omitempty"`
-	Ext     string   `json:"ext,omitempty"` // whitelist | unwhitelist | active | veto | np | dur
-	A       int64    `json:"a,omitempty"`
-	B       string   `json:"b,omitempty"`
-	Flag    bool     `json:"flag,omitempty"`
-	Res     string   `json:"result"`
-	Err     string   `json:"err,omitempty"`
+	Kind    string     `json:"op"` // submit | vote | end | ext
+	T       int64      `json:"time"`
+	H       int64      `json:"height"`
+	Who     int64      `json:"who,omitempty"`
+	Content *content   `json:"content,omitempty"`
+	ID      int64      `json:"id,omitempty"`
+	Opt     int64      `json:"option,omitempty"`
+	Ext     string     `json:"ext,omitempty"` // whitelist | unwhitelist | active | veto | np | dur
+	A       int64      `json:"a,omitempty"`
+	B       string     `json:"b,omitempty"`
+	Flag    bool       `json:"flag,omitempty"`
+	Res     string     `json:"result"`
+	Err     string     `json:"err,omitempty"`
 	Applied []applyRec `json:"applied,omitempty"`
-	Props   string   `json:"proposals,omitempty"`
+	Props   string     `json:"proposals,omitempty"`
 }
 
 func (o op) coqOp() string {
@@ -189,7 +191,8 @@ func (o op) coqOp() string {
 
 // ---------------------------------------------------------------- observers
 
-const nActors = 7
+const nActors = 13 // observers look at actor00..actor12
+const nRand = 7    // the random stream uses at most actor00..actor06
 
 func worldCoq(ctx sdk.Context, k govkeeper.Keeper) string {
 	p := k.GetNetworkProperties(ctx)
@@ -285,13 +288,72 @@ func votesCoq(ctx sdk.Context, k govkeeper.Keeper, id uint64) string {
 type jhist struct {
 	Seed  uint64 `json:"seed"`
 	Index int    `json:"index"`
+	Kind  string `json:"kind"`
+	Spec  *bspec `json:"boundary,omitempty"`
 	World string `json:"initial_world"`
 	Ops   []op   `json:"ops"`
 }
 
+// ---------------------------------------------------------------- boundary stream
+// One proposal, an electorate of N holders of the vote permission of which the first Capable ones may
+// veto, Votes votes cast: the first Veto voters vote no-with-veto, the last Yes voters vote yes, the
+// rest alternate no / abstain.  Enumerated at and around every comparison of the tally and quorum.
+type bspec struct {
+	N       int    `json:"electorate"`
+	Capable int    `json:"veto_capable"`
+	Quorum  string `json:"quorum_e18"`
+	Votes   int    `json:"votes"`
+	Yes     int    `json:"yes"`
+	Veto    int    `json:"veto"`
+}
+
+func around(x, lo, hi int, extra ...int) []int {
+	seen := map[int]bool{}
+	var out []int
+	for _, v := range append([]int{x - 1, x, x + 1}, extra...) {
+		if v >= lo && v <= hi && !seen[v] {
+			seen[v] = true
+			out = append(out, v)
+		}
+	}
+	return out
+}
+
+func boundarySpecs() (core, all []bspec) {
+	qs := []string{"0", "333333333333333333", "500000000000000000", "1000000000000000000"}
+	e18 := new(big.Int).Exp(big.NewInt(10), big.NewInt(18), nil)
+	for n := 1; n <= 12; n++ {
+		for c := 0; c <= n; c++ {
+			for _, v := range around(c/2, 0, n, (c+1)/2, 0) {
+				for _, q := range qs {
+					qi, _ := new(big.Int).SetString(q, 10)
+					num := new(big.Int).Mul(qi, big.NewInt(int64(n)))
+					need := new(big.Int).Div(new(big.Int).Add(num, new(big.Int).Sub(e18, big.NewInt(1))), e18) // ceil(q*n)
+					for _, m := range around(int(need.Int64()), v, n, n) {
+						if m == int(need.Int64())+1 && m != n {
+							continue
+						}
+						for _, y := range around(m/2, 0, m-v, (m+1)/2, m-v) {
+							sp := bspec{N: n, Capable: c, Quorum: q, Votes: m, Yes: y, Veto: v}
+							all = append(all, sp)
+							// core: exactly half of an even veto-capable subset vetoes while yes has the majority,
+							// and the two neighbours of that point
+							if c >= 2 && c < n && c%2 == 0 && v == c/2 && m == n && y == m-v && q == qs[2] {
+								core = append(core, sp)
+							}
+						}
+					}
+				}
+			}
+		}
+	}
+	return core, all
+}
+
 func main() {
 	outDir := flag.String("out", ".", "output directory")
-	n := flag.Int("n", 300, "number of histories")
+	n := flag.Int("n", 300, "number of random histories")
+	nb := flag.Int("nb", 200, "number of boundary histories (core set first, then a seeded sample; -1 = all)")
 	flag.Parse()
 	out := hx.Out{Dir: *outDir}
 	seed := hx.Seed()
@@ -333,8 +395,34 @@ func main() {
 	var coq strings.Builder
 	var js []jhist
 
-	for hi := 0; hi < *n; hi++ {
+	core, all := boundarySpecs()
+	specs := core
+	if *nb < 0 {
+		specs = append(specs, all...)
+	} else {
+		br := rng.Fork()
+		for len(specs) < *nb {
+			specs = append(specs, all[br.Intn(len(all))])
+		}
+		if *nb < len(specs) {
+			specs = specs[:*nb]
+		}
+	}
+	optionSets := [][]govtypes.VoteOption{
+		{govtypes.OptionYes, govtypes.OptionNo, govtypes.OptionAbstain},
+		{govtypes.OptionYes},
+		{govtypes.OptionYes, govtypes.OptionNo},
+		{},
+		{govtypes.OptionNoWithVeto},
+		{govtypes.OptionNo, govtypes.OptionNoWithVeto},
+	}
+
+	for hi := 0; hi < *n+len(specs); hi++ {
 		r := rng.Fork()
+		var spec *bspec
+		if hi >= *n {
+			spec = &specs[hi-*n]
+		}
 		hctx, _ := base.CacheContext()
 		// ---- initial configuration
 		p := k.GetNetworkProperties(hctx)
@@ -344,25 +432,39 @@ func main() {
 		p.ProposalEnactmentTime = uint64(secs[r.Intn(len(secs))])
 		p.MinProposalEndBlocks = uint64(blocks[r.Intn(len(blocks))])
 		p.MinProposalEnactmentBlocks = uint64(blocks[r.Intn(len(blocks))])
+		if spec != nil {
+			q, _ = new(big.Int).SetString(spec.Quorum, 10)
+			p.VoteQuorum = sdk.NewDecFromBigIntWithPrec(q, 18)
+			p.MinimumProposalEndTime, p.ProposalEnactmentTime, p.MinProposalEndBlocks, p.MinProposalEnactmentBlocks = 1, 1, 1, 1
+		}
 		if err := k.SetNetworkProperties(hctx, p); err != nil {
 			panic(err)
 		}
-		na := 1 + r.Intn(nActors-1)
+		na := 1 + r.Intn(nRand-1)
 		small := r.Chance(35) // few voters: ties and exact thresholds are frequent
 		if small {
 			na = 1 + r.Intn(3)
 		}
+		if spec != nil {
+			na = spec.N
+		}
 		for i := 0; i < na; i++ {
 			a := govtypes.NewDefaultActor(addr(int64(i)))
-			if r.Chance(20) {
-				a.Votes = []govtypes.VoteOption{govtypes.OptionYes, govtypes.OptionNo, govtypes.OptionAbstain}
+			if spec == nil && r.Chance(35) { // restricted vote-option sets: the veto-capable set differs from the electorate
+				a.Votes = optionSets[r.Intn(len(optionSets))]
 			}
-			if r.Chance(5) {
+			if spec == nil && r.Chance(5) {
 				a.Status = govtypes.Inactive
+			}
+			if spec != nil && i >= spec.Capable {
+				a.Votes = optionSets[(i+hi)%4] // none of the first four sets contains the veto option
 			}
 			k.SaveNetworkActor(hctx, a)
 			for _, pm := range perms {
-				if r.Chance(85) {
+				if spec != nil && !(pm == 11 || pm == 10 && i == 0) {
+					continue
+				}
+				if spec != nil || r.Chance(85) {
 					act, _ := k.GetNetworkActorByAddress(hctx, a.Address)
 					if err := k.AddWhitelistPermission(hctx, act, govtypes.PermValue(pm)); err != nil {
 						panic(err)
@@ -370,12 +472,15 @@ func main() {
 				}
 			}
 		}
-		if r.Chance(30) {
+		if spec == nil && r.Chance(30) {
 			_ = k.SetProposalDuration(hctx, typeNames[r.Intn(5)], uint64(durVals[5+r.Intn(5)]))
 		}
 		w0 := worldCoq(hctx, k)
 		lastWorld := w0
-		jh := jhist{Seed: seed, Index: hi, World: w0}
+		jh := jhist{Seed: seed, Index: hi, World: w0, Kind: "random", Spec: spec}
+		if spec != nil {
+			jh.Kind = "boundary"
+		}
 
 		t, h := int64(1000+r.Intn(50)), int64(2+r.Intn(5))
 		nextID := int64(1)
@@ -545,9 +650,9 @@ func main() {
 				}
 				return &content{Kind: "registry", A: int64(key), B: strconv.Itoa(hash)}
 			case 6:
-				return &content{Kind: "whitelist", A: int64(r.Intn(nActors)), B: strconv.Itoa(int(perms[r.Intn(len(perms))]))}
+				return &content{Kind: "whitelist", A: int64(r.Intn(nRand)), B: strconv.Itoa(int(perms[r.Intn(len(perms))]))}
 			case 7:
-				return &content{Kind: "unwhitelist", A: int64(r.Intn(nActors)), B: strconv.Itoa(int(perms[r.Intn(len(perms))]))}
+				return &content{Kind: "unwhitelist", A: int64(r.Intn(nRand)), B: strconv.Itoa(int(perms[r.Intn(len(perms))]))}
 			default:
 				m := 1 + r.Intn(3)
 				if r.Chance(5) {
@@ -561,98 +666,114 @@ func main() {
 			}
 		}
 
-		nblocks := 8 + r.Intn(14)
-		for b := 0; b < nblocks; b++ {
-			nmsg := r.Intn(8)
-			if b < 2 {
-				nmsg = 1 + r.Intn(3)
+		if spec != nil {
+			doOp(op{Kind: "submit", T: t, H: h, Who: 0, Content: &content{Kind: "registry", A: 1, B: "5"}})
+			for i := 0; i < spec.Votes; i++ {
+				opt := int64(3 - int64(i%2)) // no / abstain
+				if i < spec.Veto {
+					opt = 4
+				} else if i >= spec.Votes-spec.Yes {
+					opt = 1
+				}
+				doOp(op{Kind: "vote", T: t, H: h, Who: int64(i), ID: 1, Opt: opt})
 			}
-			for m := 0; m < nmsg; m++ {
-				x := r.Intn(100)
-				switch {
-				case x < 22 || (b == 0 && m == 0):
-					who := int64(r.Intn(na))
-					if r.Chance(8) {
-						who = int64(na)
-					}
-					doOp(op{Kind: "submit", T: t, H: h, Who: who, Content: randContent()})
-				case x < 80:
-					id := int64(1)
-					if nextID == 1 {
-						doOp(op{Kind: "submit", T: t, H: h, Who: int64(r.Intn(na)), Content: randContent()})
-						continue
-					}
-					id = 1 + int64(r.Intn(int(nextID-1)))
-					if r.Chance(85) { // prefer proposals whose voting window is still open
-						var open []int64
-						for j := int64(1); j < nextID; j++ {
-							if pr, ok := k.GetProposal(hctx, uint64(j)); ok && pr.VotingEndTime.Unix() >= t {
-								open = append(open, j)
-							}
+			for b := int64(0); b < 4; b++ {
+				doOp(op{Kind: "end", T: t + b, H: h + b})
+			}
+		} else {
+			nblocks := 8 + r.Intn(14)
+			for b := 0; b < nblocks; b++ {
+				nmsg := r.Intn(8)
+				if b < 2 {
+					nmsg = 1 + r.Intn(3)
+				}
+				for m := 0; m < nmsg; m++ {
+					x := r.Intn(100)
+					switch {
+					case x < 22 || (b == 0 && m == 0):
+						who := int64(r.Intn(na))
+						if r.Chance(8) {
+							who = int64(na)
 						}
-						if len(open) > 0 {
-							id = open[r.Intn(len(open))]
-						} else if r.Chance(75) {
+						doOp(op{Kind: "submit", T: t, H: h, Who: who, Content: randContent()})
+					case x < 80:
+						id := int64(1)
+						if nextID == 1 {
 							doOp(op{Kind: "submit", T: t, H: h, Who: int64(r.Intn(na)), Content: randContent()})
 							continue
 						}
-					}
-					if r.Chance(3) {
-						id = nextID + int64(r.Intn(2))
-					}
-					opt := int64([]int{1, 1, 1, 1, 1, 1, 1, 1, 3, 3, 2, 4, 4, 0, 7}[r.Intn(15)])
-					who := int64(r.Intn(na))
-					if r.Chance(5) {
-						who = int64(na)
-					}
-					if r.Chance(25) && len(voted[id]) > 0 { // re-vote
-						who = voted[id][r.Intn(len(voted[id]))]
-					}
-					doOp(op{Kind: "vote", T: t, H: h, Who: who, ID: id, Opt: opt})
-				case x < 84:
-					doOp(op{Kind: "ext", Ext: "whitelist", T: t, H: h, Who: int64(r.Intn(nActors)), B: strconv.Itoa(int(perms[r.Intn(len(perms))]))})
-				case x < 87:
-					doOp(op{Kind: "ext", Ext: "unwhitelist", T: t, H: h, Who: int64(r.Intn(na)), B: strconv.Itoa(int(perms[r.Intn(len(perms))]))})
-				case x < 90:
-					doOp(op{Kind: "ext", Ext: "active", T: t, H: h, Who: int64(r.Intn(na)), Flag: r.Chance(75)})
-				case x < 93:
-					doOp(op{Kind: "ext", Ext: "veto", T: t, H: h, Who: int64(r.Intn(na)), Flag: r.Chance(50)})
-				case x < 97:
-					pid := int64([]int{2, 3, 4, 5, 6, 5, 6}[r.Intn(7)])
-					v := ""
-					switch pid {
-					case 2:
-						v = quorums[r.Intn(len(quorums))]
-					case 3, 4:
-						v = strconv.Itoa(int(secs[r.Intn(len(secs))]))
+						id = 1 + int64(r.Intn(int(nextID-1)))
+						if r.Chance(85) { // prefer proposals whose voting window is still open
+							var open []int64
+							for j := int64(1); j < nextID; j++ {
+								if pr, ok := k.GetProposal(hctx, uint64(j)); ok && pr.VotingEndTime.Unix() >= t {
+									open = append(open, j)
+								}
+							}
+							if len(open) > 0 {
+								id = open[r.Intn(len(open))]
+							} else if r.Chance(75) {
+								doOp(op{Kind: "submit", T: t, H: h, Who: int64(r.Intn(na)), Content: randContent()})
+								continue
+							}
+						}
+						if r.Chance(3) {
+							id = nextID + int64(r.Intn(2))
+						}
+						opt := int64([]int{1, 1, 1, 1, 1, 1, 1, 1, 3, 3, 2, 4, 4, 0, 7}[r.Intn(15)])
+						who := int64(r.Intn(na))
+						if r.Chance(5) {
+							who = int64(na)
+						}
+						if r.Chance(25) && len(voted[id]) > 0 { // re-vote
+							who = voted[id][r.Intn(len(voted[id]))]
+						}
+						doOp(op{Kind: "vote", T: t, H: h, Who: who, ID: id, Opt: opt})
+					case x < 84:
+						doOp(op{Kind: "ext", Ext: "whitelist", T: t, H: h, Who: int64(r.Intn(nRand)), B: strconv.Itoa(int(perms[r.Intn(len(perms))]))})
+					case x < 87:
+						doOp(op{Kind: "ext", Ext: "unwhitelist", T: t, H: h, Who: int64(r.Intn(na)), B: strconv.Itoa(int(perms[r.Intn(len(perms))]))})
+					case x < 90:
+						doOp(op{Kind: "ext", Ext: "active", T: t, H: h, Who: int64(r.Intn(na)), Flag: r.Chance(75)})
+					case x < 93:
+						doOp(op{Kind: "ext", Ext: "veto", T: t, H: h, Who: int64(r.Intn(na)), Flag: r.Chance(50)})
+					case x < 97:
+						pid := int64([]int{2, 3, 4, 5, 6, 5, 6}[r.Intn(7)])
+						v := ""
+						switch pid {
+						case 2:
+							v = quorums[r.Intn(len(quorums))]
+						case 3, 4:
+							v = strconv.Itoa(int(secs[r.Intn(len(secs))]))
+						default:
+							v = strconv.Itoa(r.Intn(6))
+						}
+						doOp(op{Kind: "ext", Ext: "np", T: t, H: h, A: pid, B: v})
 					default:
-						v = strconv.Itoa(r.Intn(6))
+						doOp(op{Kind: "ext", Ext: "dur", T: t, H: h, A: int64(1 + r.Intn(5)), B: strconv.Itoa(durVals[r.Intn(len(durVals))])})
 					}
-					doOp(op{Kind: "ext", Ext: "np", T: t, H: h, A: pid, B: v})
-				default:
-					doOp(op{Kind: "ext", Ext: "dur", T: t, H: h, A: int64(1 + r.Intn(5)), B: strconv.Itoa(durVals[r.Intn(len(durVals))])})
 				}
-			}
-			doOp(op{Kind: "end", T: t, H: h})
-			// next block: equal times, one second, the configured periods, long gaps
-			switch x := r.Intn(100); {
-			case x < 15:
-			case x < 55:
-				t += 1
-			case x < 70:
-				t += int64(1 + r.Intn(12))
-			case x < 80:
-				t += int64(p.MinimumProposalEndTime)
-			case x < 88:
-				t += int64(p.ProposalEnactmentTime)
-			case x < 96:
-				t += int64(r.Intn(400))
-			default:
-				t += 100000
-			}
-			h++
-			if r.Chance(7) {
-				h += int64(r.Intn(4))
+				doOp(op{Kind: "end", T: t, H: h})
+				// next block: equal times, one second, the configured periods, long gaps
+				switch x := r.Intn(100); {
+				case x < 15:
+				case x < 55:
+					t += 1
+				case x < 70:
+					t += int64(1 + r.Intn(12))
+				case x < 80:
+					t += int64(p.MinimumProposalEndTime)
+				case x < 88:
+					t += int64(p.ProposalEnactmentTime)
+				case x < 96:
+					t += int64(r.Intn(400))
+				default:
+					t += 100000
+				}
+				h++
+				if r.Chance(7) {
+					h += int64(r.Intn(4))
+				}
 			}
 		}
 		coq.WriteString(fmt.Sprintf("CHist %s %s\n", w0, hx.List(steps)))
@@ -666,6 +787,6 @@ func main() {
 	out.WriteFile("cases.txt", coq.String())
 	out.WriteJSON("meta.json", map[string]string{"case_type": "c08_case", "mismatch_fn": "c08_mismatches", "violation_fn": "c08_violations"})
 	out.WriteJSON("cases.json", js)
-	out.WriteJSON("dist.json", map[string]interface{}{"seed": seed, "histories": len(js), "by_kind": dist})
-	fmt.Fprintf(os.Stderr, "c08: %d histories\n", len(js))
+	out.WriteJSON("dist.json", map[string]interface{}{"seed": seed, "histories": len(js), "boundary_histories": len(specs), "boundary_core": len(core), "boundary_enumeration_size": len(all), "by_kind": dist})
+	fmt.Fprintf(os.Stderr, "c08: %d histories (%d boundary: %d core, enumeration has %d)\n", len(js), len(specs), len(core), len(all))
 }
